@@ -461,6 +461,10 @@ impl<'a> Parser<'a> {{
         diag: <Self as ParserCallbacks<'a>>::Diagnostic
     ) {{
         self.error(diags, diag);
+        if self.pos >= self.tokens.len() {{
+            // end of input: there is no token that could be skipped
+            return;
+        }}
         if self.error_node.is_none() {{
             self.error_node = Some(self.cst.data.open());
         }}
